@@ -63,8 +63,9 @@ def make_config(cls: str, params: dict):
 
 
 def make(cls: str, params: dict, callbacks=None, config=None):
-    if config is None and not params and cls != "BOCD":
-        # the `config=None` path of the constructors: the detector builds its own default configuration (the model line carries the documented defaults)
+    if config is None and not params:
+        # the `config=None` path of the constructors: the detector builds its own default configuration (for BOCD: `BOCDConfig()` with its default
+        # model `GaussianUnknownMean()`); the model line carries the documented defaults
         return getattr(cd, cls)(config=None, callbacks=callbacks)
     cfg = config if config is not None else make_config(cls, params)
     return getattr(cd, cls)(config=cfg, callbacks=callbacks)
